@@ -134,9 +134,7 @@ class Comparer(object):
                 return
         if self.guards:
             g = mk_implies(mk_and(*self.guards), g)
-        if g is True:
-            return
-        self.goals.append((name, g))
+        self.goals.append((name, g))       # (a goal that evaluates to True syntactically is recorded as 'trivial')
 
     def mismatch(self, name, why):
         self.goal(name + ' {' + why + '}', False)
